@@ -202,6 +202,9 @@ func (d *segmentationDescriptor) parseDescriptor(data []byte) error {
 		b, _ := buf.ReadByte()
 		return b
 	}
+	if buf.Len() < 9 { // identifier, event id and cancel indicator are always present
+		return gots.ErrInvalidSCTE35Length
+	}
 	if binary.BigEndian.Uint32(buf.Next(4)) != segDescID {
 		return gots.ErrSCTE35InvalidDescriptorID
 	}
